@@ -3,6 +3,7 @@ import Rare.Drv.C10
 import Rare.Drv.C14
 import Rare.Model.C02
 import Rare.Model.Expr.Funcs.Extra
+import Rare.Drv.C08Fmt
 /-!
 Line-protocol ops of C08:
 
@@ -12,6 +13,7 @@ Line-protocol ops of C08:
   five fields: the two package switches, `stdlib.DisableLoad`, and a file system with one readable file
   (`x` = that file cannot be read either).  `float64` is IEEE double (`Drv.C14.floatArith`), gjson answers
   `unmodelled json`;
+* `fmt <format> <operands>` – `fmt.Sprintf` on string operands (`Drv/C08Fmt.lean`); `exprw` also has `format` modelled;
 * `funcs <opt> <file> <template> <elems> <keys>` – a definitions file (user functions → `lazySubContext`), as in C10;
 * `gm <line> <indices> <idx>` – `SliceSpaceExpressionContext.GetMatch(idx)` (model `C02.getMatch`).
 -/
@@ -23,8 +25,12 @@ def world (color unicode noload : Bool) (path : Bytes) (content : Option Bytes) 
     fs := fun p => if p = path then content else none,
     gjson := fun _ _ => .panic "unmodelled:json" }
 
+/-- `format` as the driver registers it: `Funcs.Format.kfFormatDrv` (the proved builder evaluated for both
+    extreme `IsPrint` oracles; declines when they disagree). -/
+def formatTable : Table := [("format", Funcs.Format.kfFormatDrv)]
+
 def registryW (w : Funcs.Extra.World Float) : Registry :=
-  mkRegistry (stdTable ++ Funcs.Extra.table w) Gen.stdFunctionNames
+  mkRegistry (stdTable ++ Funcs.Extra.table w ++ formatTable) Gen.stdFunctionNames
 
 def decInts (s : String) : Option (List Int) :=
   if s = "." then some [] else (s.splitOn ",").mapM String.toInt?
@@ -50,8 +56,11 @@ def handle (args : List String) : String :=
     | _, _, _ => "bad-args"
   | "funcs" :: _ => Rare.Drv.C10.handle args
   | _ =>
-    match Rare.Drv.Expr.handle args with
+    match Rare.Drv.C08Fmt.handle args with
     | some a => a
-    | none => "bad-op"
+    | none =>
+      match Rare.Drv.Expr.handle args with
+      | some a => a
+      | none => "bad-op"
 
 end Rare.Drv.C08
